@@ -68,6 +68,57 @@ pub fn events(thorough: bool) -> Vec<Ev> {
     // duplicate wire: short (empty after delay) and long
     v.push(Ev { name: "two banks for one wire, 64 and 150 samples", run: sim, banks: vec![trg(1), wire("09", 0, 64, 0), wire("09", 0, 150, 0), wire("11", 3, 150, 0)] });
     v.push(Ev { name: "two banks for one wire, 100 and 101 samples", run: sim, banks: vec![trg(1), wire("09", 0, 100, 0), wire("09", 0, 101, 0)] });
+    // the same wire bank name twice: a data-less (16-byte suppressed) packet and a full one; and twice data-less
+    v.push(Ev { name: "one wire bank name twice: data-less packet and full packet", run: sim, banks: vec![trg(2), ("C090".into(), crate::props::c02::short_packet(0x2000, 0, 699)), wire("09", 0, 150, 0), wire("10", 3, 150, 1)] });
+    v.push(Ev { name: "one wire bank name three times: full, data-less, data-less", run: sim, banks: vec![trg(2), wire("09", 0, 150, 0), ("C090".into(), crate::props::c02::short_packet(0x2000, 0, 699)), ("C090".into(), crate::props::c02::short_packet(0x2000, -3, 100))] });
+    // a PWB message in which one chunk id arrives twice with different (CRC-valid) payloads of the same length
+    {
+        let chans: Vec<(u16, Vec<i16>)> = [4u16, 5, 30].iter().map(|&ro| (ro, pad_samples(ro, 131, 0))).collect();
+        let chans_b: Vec<(u16, Vec<i16>)> = [4u16, 5, 30].iter().map(|&ro| (ro, pad_samples(ro, 131, 1))).collect();
+        let a = pwb_banks("12", 0, &pwb_payload("12", 0, 131, &chans), 300);
+        let b = pwb_banks("12", 0, &pwb_payload("12", 0, 131, &chans_b), 300);
+        for dup in [0usize, 1, a.len() - 1] {
+            let mut e: Banks = vec![trg(4), wire("09", 0, 150, 0)];
+            e.extend(a.iter().cloned());
+            e.push(b[dup].clone());
+            if e.len() <= 7 {
+                v.push(Ev { name: match dup { 0 => "PWB message with chunk 0 arriving twice with different payloads", 1 => "PWB message with chunk 1 arriving twice with different payloads", _ => "PWB message with the last chunk arriving twice with different payloads" }, run: sim, banks: e });
+            }
+        }
+    }
+    // the same with real pulses: a wire avalanche and a 3-pad cluster whose waveforms differ between the two copies of
+    // the duplicated chunk, so that "which copy survives" would change z and the pad amplitude
+    {
+        let col = wire_column(20);
+        let rows = [300usize, 301, 302];
+        let (bd, chip, _) = m.pad[&(col, rows[0])];
+        if rows.iter().all(|r| m.pad[&(col, *r)].0 == bd && m.pad[&(col, *r)].1 == chip) {
+            let mk = |amps: [f64; 3]| -> Vec<(u16, Vec<i16>)> {
+                let mut v: Vec<(u16, Vec<i16>)> = rows.iter().zip(amps).map(|(r, a)| {
+                    let mut sg = vec![0.0; 40];
+                    add_pad_pulse(&mut sg, 5, a);
+                    (readout_index(m.pad[&(col, *r)].2), digitise_pad(&sg))
+                }).collect();
+                v.sort_by_key(|c| c.0);
+                v
+            };
+            let (ca, cb) = (mk([40.0, 100.0, 55.0]), mk([90.0, 100.0, 20.0]));
+            let req = ca[0].1.len() as u16;
+            let a = pwb_banks(bd, chip, &pwb_payload(bd, chip, req, &ca), 500);
+            let b = pwb_banks(bd, chip, &pwb_payload(bd, chip, req, &cb), 500);
+            let mut wsig = vec![0.0; 60];
+            add_wire_pulse(&mut wsig, 5, 120.0);
+            let (wb, wch) = m.wire[20];
+            for dup in 0..a.len().min(b.len()) {
+                let mut e: Banks = vec![trg(31), (wire_bank_name(wb, wch), wire_packet(wb, wch, &digitise_wire(&wsig)))];
+                e.extend(a.iter().cloned());
+                e.push(b[dup].clone());
+                if e.len() <= 6 {
+                    v.push(Ev { name: if dup == 0 { "avalanche + PWB message whose chunk 0 arrives twice with different pulses" } else { "avalanche + PWB message whose chunk 1 arrives twice with different pulses" }, run: sim, banks: e });
+                }
+            }
+        }
+    }
     // two pad messages in different chunk groups whose packets claim the same chip (same pads)
     for (na, nb) in [(131u16, 131u16), (100, 131), (131, 100), (100, 100), (3, 131)] {
         let mut e: Banks = vec![trg(9)];
@@ -337,6 +388,40 @@ pub fn run(args: &Args) -> i32 {
         }
         if outs.iter().any(|o| o.1.contains("gave no fingerprint") || o.1.contains("spawn failed")) {
             loc.violation("harness:child-process", json!({"case": what, "outcomes": outs}));
+        }
+    });
+    // 4. history independence of the reconstruction: noisy multi-track events evaluated one after the other on
+    //    one thread must give the same result as each of them on a fresh thread
+    let n_hist = if thorough { 96 } else { 32 };
+    rep.run("reconstruction-history", 1, 900, true, &format!("{n_hist} forward-model lattice events with 24 noise avalanches each: all evaluated in sequence on one thread (forward, then backward), each compared with its own evaluation on a fresh thread"), |_i, loc| {
+        let m = maps();
+        let mk = |k: u64| -> Banks {
+            let spec = lattice_event((k * 131 + 17) % 4320, 0);
+            let mut hits = ionisation(m, &spec);
+            let mut x = 0xA5A5_5A5Au64.wrapping_mul(k + 3);
+            for _ in 0..24 {
+                x = x.wrapping_mul(6364136223846793005).wrapping_add(1442695040888963407);
+                hits.push(Hit { wire: ((x >> 20) % 256) as usize, bin: 5 + ((x >> 30) % 250) as usize, z: -1.0 + 2.0 * (((x >> 40) % 1000) as f64 / 1000.0), amp: 40.0 + ((x >> 50) % 60) as f64 });
+            }
+            banks(m, &signals(m, spec.sigma_z, &hits), k as u32)
+        };
+        let evs: Vec<Banks> = (0..n_hist).map(mk).collect();
+        let fresh: Vec<String> = evs.iter().map(|b| {
+            let b = b.clone();
+            std::thread::Builder::new().stack_size(32 << 20).spawn(move || format!("{:?}", evaluate(SIM_RUN, &b, None).map(|r| r.0))).unwrap().join().unwrap_or_else(|_| "thread panicked".into())
+        }).collect();
+        let mut seq: Vec<(usize, String)> = Vec::new();
+        for i in (0..evs.len()).chain((0..evs.len()).rev()) {
+            seq.push((i, format!("{:?}", evaluate(SIM_RUN, &evs[i], None).map(|r| r.0))));
+        }
+        execs.fetch_add(3 * n_hist, Ordering::Relaxed);
+        loc.bulk(3 * n_hist, n_hist, "evaluations");
+        loc.count("history_events_with_vertex", fresh.iter().filter(|f| f.starts_with("Ok(Ok")).count() as u64);
+        for (i, s) in seq {
+            if s != fresh[i] {
+                loc.violation("event:result-depends-on-earlier-events", json!({"event_index": i, "fresh_thread": fresh[i], "after_other_events": s}));
+                break;
+            }
         }
     });
     let ex = execs.load(Ordering::Relaxed);
